@@ -38,7 +38,7 @@ REQUIRED = {"answers": 100000, "answers/as_array": 2000, "lattice/accept": 3000,
             "lattice/after_rejected_set": 2000, "lattice/inplace_write_back": 1000, "bounds": 20000, "bounds/get_at_len": 1000,
             "bounds/set_at_len": 1000, "isolation": 10000, "isolation/inplace_on_unset": 1000, "isolation/view_on_unset": 500,
             "align": 15000, "align/append": 1000, "align/iadd_container": 300, "registry": 1000, "exhaustive/histories": 5000}
-CASE_TIMEOUT = {"quick": 60.0, "thorough": 900.0}
+CASE_TIMEOUT = {"quick": 30.0, "thorough": 900.0}
 ASSUMPTIONS = ["integers stay within +-2^53 and strings within the 32 characters (no NUL) that the dense string dtype is documented to hold",
                "sparse attributes are not required to bound-check: out-of-range indices are only presented to the dense storage",
                "values of types outside mouette's five value types (numpy float16, int16, complex128, str_, ...) are only required "
